@@ -41,6 +41,9 @@ def mproof_abs(child_obj, child_idx, h=None, d=None, t=3):
     return {'t': t, 'n': 8 * len(y), 'y': list(y), 'r': [child_idx]}
 
 
+VIA_BAG = [0]
+
+
 def run_proof(heap, want, label, genuine):
     rec = {'op': 'proof', 'label': label, 'genuine': int(genuine), 'cells': heap, 'proof': len(heap), 'want': list(want)}
     try:
@@ -48,7 +51,13 @@ def run_proof(heap, want, label, genuine):
     except Exception as e:
         return None          # not constructible: nothing to check (C02's subject)
     try:
-        check_proof(objs[-1], bytes(want))
+        VIA_BAG[0] += 1
+        root = objs[-1]
+        if VIA_BAG[0] % 3 == 0:
+            # the proof travels as a bag of cells, as it does on the wire (a proof that cannot be read back is a proof rejected)
+            rec['via'] = 'bag'
+            root = Cell.one_from_boc(root.to_boc())
+        check_proof(root, bytes(want))
         rec['out'] = {'ok': 1}
     except Exception as e:
         rec['out'] = {'err': type(e).__name__}
@@ -532,6 +541,27 @@ def account_records(rng, n=None):
         o_addr, o_acc = [x for x in accts if x[0] is not target][0]
         cases.append(('forged_neighbour_account', False, roots, blk, target, o_acc))
         cases.append(('genuine_second_account', True, roots, blk, o_addr, o_acc))
+    if n > 1:
+        # the same state, proved for each of its accounts with everything OFF that account's path pruned away: two different
+        # views of one dictionary, checked one after the other (what is known about a state is what THIS proof shows)
+        from pytoniq_core.boc.hashmap.parse import deserialize_hml
+
+        def keep_only(c, key_bits):
+            cs = c.begin_parse()
+            ln, _ = deserialize_hml(cs, len(key_bits))
+            rest = key_bits[ln:]
+            if not rest or len(c.refs) < 2:
+                return c
+            side = rest[0]
+            b = Builder().store_bits(c.bits)
+            for j, r in enumerate(c.refs):
+                b.store_ref(keep_only(r, rest[1:]) if j == side else (pruned(r) if j < 2 else r))
+            return b.end_cell()
+        for a_, c_ in (accts + accts[::-1])[:4]:
+            kb = [int(x) for x in bin(int.from_bytes(a_.hash_part, 'big'))[2:].rjust(256, '0')]
+            view = begin_cell().store_bits(accounts.bits).store_ref(keep_only(accounts.refs[0], kb)).end_cell()
+            st_view = begin_cell().store_bits(state.bits).store_ref(pruned(outq)).store_ref(view).store_ref(pruned(third)).end_cell()
+            cases.append(('genuine_account_other_paths_pruned', True, [roots[0], mproof(st_view)], blk, a_, c_))
     for label, genuine, rts, b, addr, claimed in cases:
         heap, ridx, _ = ck.project(rts)
         ah, ar, _ = ck.project([claimed])
